@@ -196,7 +196,9 @@ def judge_b(program, sc, res):
 def program_c(ci):
     kind = ci.kind
     d = {"a": 1} if kind == "dict" else [1]
-    w = (lambda k: {"m": "setitem", "a": enc([k, 1])}) if kind == "dict" else (lambda k: {"m": "append", "a": enc([k])})
+    # nested values: building the child nodes takes the class lock while the file lock is held
+    w = (lambda k: {"m": "setitem", "a": enc([k, {"n": [1]}])}) if kind == "dict" else \
+        (lambda k: {"m": "append", "a": enc([{k: [1]}])})
     # handles: x (file0, will be retargeted to file1), y (file0), z (file1)
     return {"property": ID, "class": ci.name, "docs": [enc(d), enc(d)], "root_kinds": [kind, kind],
             "handles": [{"file": 0}, {"file": 0}, {"file": 1}], "kinds": [kind] * 3,
@@ -213,7 +215,7 @@ def judge_c(program, sc, res):
         return {"what": "operation_failed_around_retarget", "failed": bad, "schedule": sc}
     from ..plain import dec
     f0, f1 = dec(res["final"][0]), dec(res["final"][1])
-    has = (lambda f, k: k in f)
+    has = (lambda f, k: (k in f) if isinstance(f, dict) else any(isinstance(e, dict) and k in e for e in f))
     need0, need1 = ["x0", "y", "y2"], ["x1", "z"]
     miss = [k for k in need0 if not has(f0, k)] + [k for k in need1 if not has(f1, k)]
     if miss:
